@@ -82,6 +82,13 @@ func (c *VC) boxIface(v *Term, from types.Type) *Term {
 		f = fmt.Sprintf("%s_%x", f[:50], hashStr(f))
 	}
 	r := c.uf(f, sortInt, v)
+	// an interface holding a concrete non-pointer value is never nil
+	if !c.noName {
+		if k := "boxnn:" + r.String(); len(k) < 300 && !c.specAxioms[k] {
+			c.specAxioms[k] = true
+			c.facts = append(c.facts, mkNot(mkEq(r, intLit64(0))))
+		}
+	}
 	return r
 }
 
@@ -637,6 +644,23 @@ func (c *VC) evalSliceExpr(st *State, e *ast.SliceExpr) *Term {
 			return mkCtor(c.strSort(), mkField(s, "st_arr"), c.binop(token.ADD, mkField(s, "st_off"), lo, it), c.binop(token.SUB, hi, lo, it))
 		}
 	case *types.Array:
+		// slicing a package-level array: a fixed backing array allocated before the call
+		if id, ok := ast.Unparen(e.X).(*ast.Ident); ok {
+			if gv, isVar := c.cur().view.objOf(id).(*types.Var); isVar && gv.Pkg() != nil && gv.Parent() == gv.Pkg().Scope() {
+				gb := c.declare("gbase_"+sanitize(gv.Pkg().Name())+"_"+sanitize(gv.Name()), sortInt)
+				if k := "gbase:" + gb.Op; !c.specAxioms[k] {
+					c.specAxioms[k] = true
+					c.facts = append(c.facts, mkAnd(mk("<", sortBool, intLit64(0), gb), mk("<", sortBool, gb, c.allocInit())))
+				}
+				n := c.idxLit(u.Len())
+				lo := idx(e.Low, c.idxLit(0))
+				hi := idx(e.High, n)
+				mx := idx(e.Max, n)
+				c.panicObl(st, "slice", text, e.Pos(), mkAnd(
+					c.cmp(token.LEQ, c.idxLit(0), lo, it), c.cmp(token.LEQ, lo, hi, it), c.cmp(token.LEQ, hi, mx, it), c.cmp(token.LEQ, mx, n, it)))
+				return mkCtor(c.sliceSort(), gb, lo, c.binop(token.SUB, hi, lo, it), c.binop(token.SUB, mx, lo, it))
+			}
+		}
 		// slicing an addressable array variable that lives in a heap row
 		if id, ok := ast.Unparen(e.X).(*ast.Ident); ok {
 			obj := c.cur().view.objOf(id)
